@@ -164,8 +164,14 @@ Definition member_step (is_union : bool) (mk : mkind) (t : ty) (ml : lay)
         end in
       (s2, ls ++ new_leaves, rs ++ [mkmrec off bit_offset bits]).
 
-Definition max_align (mls : list (mkind * lay)) : Z :=
-  fold_left (fun a '(mk, ml) => if counts_for_align mk then Z.max a (align ml) else a) mls 1.
+Definition max_align (mls : list (mkind * ty * lay)) : Z :=
+  fold_left (fun a '(mk, _, ml) => if counts_for_align mk then Z.max a (align ml) else a) mls 1.
+
+(* the struct/union case of set_type_layout + aux_set_type_align, given the members' own layouts *)
+Definition agg_layout (u : bool) (mls : list (mkind * ty * lay)) : lay :=
+  let '(s, ls, rs) :=
+    fold_left (fun acc '(mk, mt, ml) => member_step u mk mt ml acc) mls (init_fstate, [], []) in
+  mklay (used s) (max_align mls) ls rs.
 
 Fixpoint c2m_layout (t : ty) : lay :=
   match t with
@@ -175,17 +181,11 @@ Fixpoint c2m_layout (t : ty) : lay :=
   | TArr n el => let l := c2m_layout el in mklay (type_size l * n) (align l) (leaves l) []
   | TFlex el => let l := c2m_layout el in mklay (type_size l * 1) (align l) [] []
   | TAgg u ms =>
-      let fix members (ms : list (mkind * ty)) : list (mkind * ty * lay) :=
-        match ms with
-        | [] => []
-        | (mk, mt) :: r => (mk, mt, c2m_layout mt) :: members r
-        end in
-      let mls := members ms in
-      let '(s, ls, rs) :=
-        fold_left (fun acc '(mk, mt, ml) => member_step u mk mt ml acc) mls (init_fstate, [], []) in
-      mklay (used s)
-            (max_align (map (fun '(mk, _, ml) => (mk, ml)) mls))
-            ls rs
+      agg_layout u ((fix members (ms : list (mkind * ty)) : list (mkind * ty * lay) :=
+                       match ms with
+                       | [] => []
+                       | (mk, mt) :: r => (mk, mt, c2m_layout mt) :: members r
+                       end) ms)
   end.
 
 Definition c2m_sizeof (t : ty) : Z := type_size (c2m_layout t).
